@@ -113,17 +113,20 @@ StepVerdict(o, k, cur, s) ==
       bad(sig, nxt)  == [verdict |-> Verdict(id, FALSE, sig, ex.must, ex.why), go |-> TRUE, next |-> nxt]
       good(nxt)      == [verdict |-> Verdict(id, TRUE, "", ex.must, ex.why), go |-> TRUE, next |-> nxt]
   IN
-  IF s.posterr # "" THEN
+  IF s.dup > 0 \/ s.xdup > 0 THEN
+       (* the resource is no longer a tree of its own objects: an element object is stored at two places of it,  *)
+       (* or is also part of another resource this process patched; a later patch of one element then changes   *)
+       (* another, and the tree abstraction no longer describes the resource: rejected, nothing after it judged  *)
+       [verdict |-> Verdict(id, FALSE, base("shared") \o "|" \o s.out.k \o "|" \o
+                              (IF s.dup > 0 THEN "element-object-stored-twice" ELSE "element-object-shared-with-another-resource"),
+                            ex.must, ex.why),
+        go |-> FALSE, next |-> cur]
+  ELSE IF s.posterr # "" THEN
        [verdict |-> Verdict(id, FALSE, base(IF s.posterr = "timeout" THEN "timeout" ELSE "unrenderable") \o "|" \o s.out.k, ex.must, ex.why),
         go |-> FALSE, next |-> cur]
   ELSE IF ~HintsOk(s.post, cur, dn) THEN mal("post-tree-hint")
   ELSE
   LET post == IF unchanged THEN cur ELSE Expand(s.post, cur, dn) IN
-  IF s.dup > 0 /\ s.out.k \in {"ok", "err"}
-  THEN (* the resource is no longer a tree of distinct objects: some element object is stored at two places, so *)
-       (* a later patch of one element changes another (and the tree abstraction itself no longer holds)       *)
-       bad(base("shared") \o "|" \o s.out.k \o "|element-object-stored-twice", post)
-  ELSE
   CASE s.out.k = "panic" ->
          bad(base("panic") \o "|" \o s.out.site \o (IF unchanged THEN "" ELSE "|resource-changed"), post)
     [] s.out.k = "timeout" -> bad(base("timeout"), post)
